@@ -6,15 +6,18 @@ import Pyrtma.Proofs.Heap
 /-!
 # C10 — serialisation round trips are the identity
 
-Model M5 (`Model/Serial.lean`): a message class is a **descriptor** `Desc` — the walk of `_fields_` that `_to_dict` /
-`_from_dict` perform: leaf descriptor fields of M4 (ints of every width, float/double, char, byte, string, byte array,
-numeric array of length n), nested structs (field list with the padding ctypes puts in front of each field and after the
-last), arrays of structs.  `toDict d b` is the Python value `to_dict()` returns for an object with bytes `b`;
-`fromDict d v` is `_from_dict` on a fresh (all-zero) object: every leaf is assigned through M4's **validated**
-`setField` / `setItem` (`fromDictLeaf`), a string field accepts a list of characters, a missing key / short list / value
-of the wrong shape is an explicit error outcome, list items beyond a struct array's length are ignored.
+Three model parts (M5): `Model/Serial.lean` (bytes ↔ dictionary), `Model/Json.lean` (dictionary ↔ JSON text),
+`Model/Heap.lean` (storage: buffers, views, copies).
 
-Theorems
+## 1. dictionary
+A message class is a **descriptor** `Desc` — the walk of `_fields_` that `_to_dict` / `_from_dict` perform: leaf
+descriptor fields of M4 (ints of every width, float/double, char, byte, string, byte array, numeric array of length n),
+nested structs (field list with the padding ctypes puts in front of each field and after the last), arrays of structs.
+`toDict d b` is the Python value `to_dict()` returns for an object with bytes `b`; `fromDict d v` is `_from_dict` on a
+fresh (all-zero) object: every leaf is assigned through M4's **validated** `setField` / `setItem` (`fromDictLeaf`), a
+string field accepts a list of characters, a missing key / short list / value of the wrong shape is an explicit error
+outcome, list items beyond a struct array's length are ignored.
+
 * `dict_roundtrip`: **for every descriptor `d` and every well-formed content `b` (`WFD d b`),
   `fromDict d (toDict d b) = (b, none)`** — structural induction over the descriptor (mutual with the field-list
   induction `fields_roundtrip`; the struct-array case is the induction over element positions `fromElems_roundtrip`).
@@ -36,7 +39,40 @@ an opaque parameter of M4) — the driver evaluates this hypothesis on every `fl
 What `WFD` demands beyond "right length": strings NUL-terminated ASCII followed by NULs only, chars ASCII, no infinities,
 the `float` hypothesis, every padding byte zero, field names of a struct distinct, and the descriptor shapes the validator
 classes can build (`leafOk`: `String(n)`/`ByteArray(n)` with n > 1, `IntArray` of length ≥ 1 — a zero-length `IntArray`,
-which the message compiler refuses, would indeed not round-trip: see the last example).
+which the message compiler refuses, would indeed not round-trip: see the examples).
+
+## 2. JSON text
+`render` = `json.dumps(..., cls=RTMAJSONEncoder)` (minified and indented layouts, every string escape the encoder emits,
+floats as opaque tokens), `parse` = `json.loads` on that subset (`Model/Json.lean`).
+
+* `json_text_roundtrip_min` / `_pretty` / `_indent`: **`parse (render v) = some v` for every document of the subset**
+  (`J.okB`: strings of Unicode scalar values, float tokens that the JSON grammar classes as floats), for both layouts —
+  one mutual induction over documents with the layout as a parameter (`Proofs/Json.lean: parseV_render`, …).
+* `toJ_ok`, `message_json_text_roundtrip`: every `to_dict()` of a well-formed message is encoded to a document of the
+  subset, so the text `to_json` writes is read back as that document.
+* `message_json_roundtrip` (with `json_dict_roundtrip`, `byte_array_list_roundtrip`): **message → text → message**:
+  `fromJson fparse d (renderMin j) = some (b, none)` (and for the indented text), where `j` is the encoder's document for
+  the message with bytes `b`.  Hypotheses, all about Python's float formatter/reader, which stay opaque: `ftok x` is a
+  float token, and `fparse (ftok x) = x` for the floats *of this message* (true for every double except NaNs with a sign
+  or payload — JSON has one NaN); and the class shapes `descOkJ` (struct arrays non-empty, of structs).
+
+## 3. copies
+`Model/Heap.lean`: objects are references (buffer address, offset, size) into a heap of buffers; `from_buffer_copy`
+allocates a fresh buffer, nested-struct attribute access gives a view into the same buffer, writes are `memmove`s.
+
+* `copy_is_equal`, `copy_is_fresh`, `write_to_copy_leaves_source`, `write_to_source_leaves_copy`: a copy has the class
+  and bytes of its source and lives alone in a new buffer: **writing any bytes into the copy leaves the source (and every
+  other live object, views of the source included) unchanged, and vice versa**.
+* `message_copy_spec`: `Message.copy` keeps the header **class** and bytes and the data class and bytes; the two new
+  objects are in two fresh buffers, disjoint from each other and from everything that existed.
+
+## not theorems (decided on the implementation on every run, `harness/serial_corr.py`)
+`bytes()` / `from_buffer_copy` as value operations of ctypes (the heap model is compared with real ctypes objects on
+random scripts, but that ctypes allocates fresh memory is an observation, not a theorem); Python's float `repr` / `float()`
+(tokens are supplied by the harness and checked against the JSON grammar); "every value constructible through the validated
+field API is well-formed" is a theorem for strings only — for the other kinds it is `wfB` evaluated on what the API built.
+Open finding **C10-F3**: the dictionary / JSON of a `TimeCodeMessageHeader` lacks the inherited header fields (examples at
+the end).
 -/
 namespace Pyrtma.C10
 open Pyrtma.Validators Pyrtma.Serial Pyrtma.Json Pyrtma.Heap
@@ -669,6 +705,267 @@ theorem message_json_text_roundtrip (ftok : Nat → List Char) (hf : ∀ x, floa
   obtain ⟨j, he, hok⟩ := toJ_ok ftok hf d b h
   exact ⟨j, he, json_text_roundtrip_min j hok, json_text_roundtrip_pretty j hok⟩
 
+/-! ### JSON and back to bytes -/
+
+theorem strOfKey_keyOf (k : String) : strOfKey (keyOf k) = k := by
+  simp only [strOfKey, keyOf, List.map_map]
+  have : (Char.ofNat ∘ Char.toNat) = id := by funext c; simp
+  rw [this, List.map_id]
+  exact String.ofList_toList
+
+/-- **byte arrays, the JSON way**: `json.loads` hands `from_dict` a list of ints for a `ByteArray` -/
+theorem byte_array_list_roundtrip (n : Nat) (hn : 1 < n) (b : Bytes) (hw : WF (.arr .byteArray .byte n) b) :
+    fromDictLeaf (.arr .byteArray .byte n) (.seq .list (b.map fun (x : Nat) => Scalar.int (x : Int))) = (b, none) := by
+  obtain ⟨hlen, hby, _⟩ := hw
+  simp only [FTy.size, VK.esize, Nat.one_mul] at hlen
+  let pairs : List (Scalar × Bytes) := b.map fun (x : Nat) => (Scalar.int (x : Int), [x])
+  have hp1 : pairs.map (·.1) = b.map fun (x : Nat) => Scalar.int (x : Int) := by simp [pairs, Function.comp_def]
+  have hsing : ∀ (l : List Nat), (l.map fun x => [x]).flatten = l := by
+    intro l; induction l with
+    | nil => rfl
+    | cons x xs ih => simp [ih]
+  have hp2 : (pairs.map (·.2)).flatten = b := by
+    simp only [pairs, List.map_map, Function.comp_def]
+    exact hsing b
+  have hpl : pairs.length = n := by simp [pairs, hlen]
+  have hst : ∀ p ∈ pairs, elemStore .byte p.1 = .ok p.2 ∧ p.2.length = VK.byte.esize := by
+    intro p hp
+    simp only [pairs, List.mem_map] at hp
+    obtain ⟨x, hx, rfl⟩ := hp
+    have hx' := hby x hx
+    have e2 : encInt .u8 (x : Int) = [x] := by
+      simp only [encInt, IK.size, toLE]
+      have : (((x : Int) % (2 ^ (8 * 1) : Int)).toNat) = x := by simp; omega
+      rw [this]; simp; omega
+    simp only [elemStore, e2, VK.esize, List.length_cons, List.length_nil, and_self]
+  have hfill := storeSlice_fill .byte n pairs hpl hst
+  rw [hp1, hp2] at hfill
+  -- the Python-level check: `Byte.validate_many` on a list of ints
+  have hchk : intMany 0 255 false (b.map fun (x : Nat) => Scalar.int (x : Int)) = .ok () := by
+    unfold intMany
+    have h1 : (b.map fun (x : Nat) => Scalar.int (x : Int)).any (fun x => !isIntLike x) = false := by
+      simp [isIntLike]
+    simp only [h1, Bool.false_eq_true, if_false]
+    have hvals : (b.map fun (x : Nat) => Scalar.int (x : Int)).map intVal = b.map fun (x : Nat) => (x : Int) := by
+      simp [intVal, Function.comp_def]
+    rw [hvals]
+    have hin : ∀ y ∈ b.map (fun (x : Nat) => (x : Int)), (0 : Int) ≤ y ∧ y ≤ 255 := by
+      intro y hy
+      simp only [List.mem_map] at hy
+      obtain ⟨x, hx, rfl⟩ := hy
+      have := hby x hx
+      omega
+    match hm : b.map (fun (x : Nat) => (x : Int)), hin with
+    | [], _ =>
+      have : (b.map (fun (x : Nat) => (x : Int))).length = n := by simp [hlen]
+      rw [hm] at this; simp at this; omega
+    | y :: ys, hin =>
+      have hy := hin y (by simp)
+      have h2 := pyMax_le 255 ys y hy.2 (fun z hz => (hin z (by simp [hz])).2)
+      have h3 := pyMin_ge 0 ys y hy.1 (fun z hz => (hin z (by simp [hz])).1)
+      have : ¬ (pyMax y ys > 255 ∨ pyMin y ys < 0) := by omega
+      simp only [this, if_false]
+  simp only [fromDictLeaf, setItem, itemCheck, iterable, validateMany, items, oneShot, hchk, if_true, byteConv,
+    Bool.and_self, beq_self_eq_true, FTy.size]
+  simpa [VK.esize] using hfill
+
+theorem fromDict_leaf (ty : FTy) (hok : leafOk ty = true) (b : Bytes) (hw : WF ty b) :
+    fromDict (.leaf ty) (.leaf (toDictLeaf ty b)) = (b, none) := by
+  simp only [fromDict, leafArg_toDictLeaf, leaf_roundtrip ty hok b hw, Option.map_none]
+
+/-- a list of ints and floats goes through the encoder and `json.loads` unchanged (floats: by the hypothesis on the
+formatter / reader pair) -/
+theorem seqJ_back (ftok : Nat → List Char) (fparse : List Char → Nat) : ∀ (xs : List Scalar),
+    (∀ x ∈ xs, (∃ n, x = .int n) ∨ (∃ w, x = .flt w ∧ fparse (ftok w) = w)) →
+    ∃ js, seqJ ftok xs = some js ∧ js.hasObj = false ∧ js.toScalars fparse = xs
+  | [], _ => ⟨.nil, rfl, rfl, rfl⟩
+  | x :: xs, h => by
+    obtain ⟨js, he, ho, ht⟩ := seqJ_back ftok fparse xs (fun y hy => h y (by simp [hy]))
+    rcases h x (by simp) with ⟨n, rfl⟩ | ⟨w, rfl, hw⟩
+    · exact ⟨.cons (.int n) js, by simp [seqJ, scalarJ, he], by simp [JL.hasObj, ho],
+        by simp [JL.toScalars, scalarOfJ, ht]⟩
+    · exact ⟨.cons (.flt (ftok w)) js, by simp [seqJ, scalarJ, he], by simp [JL.hasObj, ho],
+        by simp [JL.toScalars, scalarOfJ, ht, hw]⟩
+
+theorem ofList_ints_back (fparse : List Char → Nat) : ∀ (bs : List Nat),
+    (JL.ofList (bs.map fun (b : Nat) => J.int (b : Int))).hasObj = false ∧
+    (JL.ofList (bs.map fun (b : Nat) => J.int (b : Int))).toScalars fparse = bs.map fun (x : Nat) => Scalar.int (x : Int)
+  | [] => ⟨rfl, rfl⟩
+  | b :: bs => by
+    have := ofList_ints_back fparse bs
+    exact ⟨by simp [JL.ofList, JL.hasObj, this.1], by simp [JL.ofList, JL.toScalars, scalarOfJ, this.2]⟩
+
+/-- every leaf: value → JSON document → `json.loads` → `from_dict` gives the bytes back -/
+theorem leaf_json_roundtrip (ftok : Nat → List Char) (fparse : List Char → Nat) (ty : FTy) (hok : leafOk ty = true)
+    (b : Bytes) (hw : WF ty b) (hrt : ∀ x ∈ leafFloats ty b, fparse (ftok x) = x) :
+    ∃ j, pyValJ ftok (toDictLeaf ty b) = some j ∧ fromDict (.leaf ty) (ofJ fparse j) = (b, none) ∧
+      ∀ kvs, j ≠ .obj kvs := by
+  match ty, hok, hw, hrt with
+  | .int k, hok, hw, _ => exact ⟨_, rfl, fromDict_leaf _ hok b hw, by intro kvs h; cases h⟩
+  | .byte, hok, hw, _ => exact ⟨_, rfl, fromDict_leaf _ hok b hw, by intro kvs h; cases h⟩
+  | .char, hok, hw, _ => exact ⟨_, rfl, fromDict_leaf _ hok b hw, by intro kvs h; cases h⟩
+  | .str n, hok, hw, _ => exact ⟨_, rfl, fromDict_leaf _ hok b hw, by intro kvs h; cases h⟩
+  | .flt .f64, hok, hw, hrt =>
+    refine ⟨.flt (ftok (fromLE b)), rfl, ?_, by intro kvs h; cases h⟩
+    have := hrt (fromLE b) (by simp [leafFloats, toDictLeaf])
+    simp only [ofJ, this]
+    exact fromDict_leaf _ hok b hw
+  | .flt .f32, hok, hw, hrt =>
+    refine ⟨.flt (ftok (widen (fromLE b))), rfl, ?_, by intro kvs h; cases h⟩
+    have := hrt (widen (fromLE b)) (by simp [leafFloats, toDictLeaf])
+    simp only [ofJ, this]
+    exact fromDict_leaf _ hok b hw
+  | .arr .byteArray .byte n, hok, hw, _ =>
+    refine ⟨_, rfl, ?_, by intro kvs h; cases h⟩
+    have hb := ofList_ints_back fparse b
+    simp only [ofJ, hb.1, Bool.false_eq_true, if_false, hb.2, fromDict, leafArg,
+      byte_array_list_roundtrip n (by simpa [leafOk] using hok) b hw, Option.map_none]
+  | .arr .intArray (.int k) n, hok, hw, _ =>
+    obtain ⟨js, he, ho, ht⟩ := seqJ_back ftok fparse (decodeItems (.int k) n b) (by
+      intro x hx; simp only [decodeItems, List.mem_map] at hx
+      obtain ⟨c, _, rfl⟩ := hx; exact Or.inl ⟨_, rfl⟩)
+    refine ⟨.arr js, by simp [toDictLeaf, pyValJ, he], ?_, by intro kvs h; cases h⟩
+    simp only [ofJ, ho, Bool.false_eq_true, if_false, ht]
+    exact fromDict_leaf _ hok b hw
+  | .arr .floatArray (.flt k) n, hok, hw, hrt =>
+    obtain ⟨js, he, ho, ht⟩ := seqJ_back ftok fparse (decodeItems (.flt k) n b) (by
+      intro x hx
+      have hx' := hx
+      rw [decodeItems_flt] at hx; simp only [List.mem_map] at hx
+      obtain ⟨c, _, rfl⟩ := hx
+      refine Or.inr ⟨_, rfl, hrt _ ?_⟩
+      simp only [leafFloats, toDictLeaf, List.mem_filterMap]
+      exact ⟨_, hx', rfl⟩)
+    refine ⟨.arr js, by simp [toDictLeaf, pyValJ, he], ?_, by intro kvs h; cases h⟩
+    simp only [ofJ, ho, Bool.false_eq_true, if_false, ht]
+    exact fromDict_leaf _ hok b hw
+
+/-! the struct-array case: one document per element, in step with the chunks -/
+inductive InStep (P : Bytes → J → Prop) : List Bytes → List J → Prop
+  | nil : InStep P [] []
+  | cons {c : Bytes} {j : J} {cs : List Bytes} {js : List J} : P c j → InStep P cs js → InStep P (c :: cs) (j :: js)
+
+theorem InStep.imp {P Q : Bytes → J → Prop} (hpq : ∀ c j, P c j → Q c j) :
+    ∀ {cs : List Bytes} {js : List J}, InStep P cs js → InStep Q cs js
+  | _, _, .nil => .nil
+  | _, _, .cons h t => .cons (hpq _ _ h) (InStep.imp hpq t)
+
+theorem toJL_chunks (ftok : Nat → List Char) (g : Bytes → Val) (P : Bytes → J → Prop) : ∀ (cs : List Bytes),
+    (∀ c ∈ cs, ∃ j, toJ ftok (g c) = some j ∧ P c j) →
+    ∃ js : List J, toJL ftok (Vals.ofList (cs.map g)) = some (JL.ofList js) ∧ InStep P cs js
+  | [], _ => ⟨[], rfl, .nil⟩
+  | c :: cs, h => by
+    obtain ⟨j, he, hp⟩ := h c (by simp)
+    obtain ⟨js, hes, hps⟩ := toJL_chunks ftok g P cs (fun d hd => h d (by simp [hd]))
+    exact ⟨j :: js, by simp [Vals.ofList, toJL, he, hes, JL.ofList], .cons hp hps⟩
+
+theorem fromElems_forall₂ (fparse : List Char → Nat) (f : Val → Bytes × Option DErr) (esz : Nat) :
+    ∀ (cs : List Bytes) (js : List J), InStep (fun c j => f (ofJ fparse j) = (c, none)) cs js →
+    fromElems f esz cs.length (ofJL fparse (JL.ofList js)).toList = (cs.flatten, none)
+  | [], [], _ => rfl
+  | c :: cs, j :: js, h => by
+    cases h with
+    | cons h1 h2 =>
+      have ih := fromElems_forall₂ fparse f esz cs js h2
+      simp only [List.length_cons, JL.ofList, ofJL, Vals.toList, fromElems, h1, ih, List.flatten_cons]
+
+mutual
+/-- **`from_json(to_json(m))` has the bytes of `m`** at the level of documents: the encoder's document for a
+well-formed message, read back as `json.loads` values and handed to `from_dict`, restores every byte.  Hypotheses: the
+class shapes of `descOkJ`, and for every float *in this message* `fparse (ftok x) = x` (Python's `float(repr(x)) == x`;
+false only for NaNs with a sign or payload, which JSON cannot express). -/
+theorem json_dict_roundtrip (ftok : Nat → List Char) (fparse : List Char → Nat) :
+    ∀ (d : Desc) (b : Bytes), WFD d b → descOkJ d = true → (∀ x ∈ floatsOf d b, fparse (ftok x) = x) →
+    ∃ j, toJ ftok (toDict d b) = some j ∧ fromDict d (ofJ fparse j) = (b, none) ∧
+      ((∃ fs t, d = .strct fs t) → ∃ kvs, j = .obj kvs)
+  | .leaf ty, b, h, _, hrt => by
+    simp only [WFD] at h
+    obtain ⟨j, he, hf, _⟩ := leaf_json_roundtrip ftok fparse ty h.1 b h.2 (by simpa only [floatsOf] using hrt)
+    exact ⟨j, by simpa only [toDict, toJ] using he, hf, by rintro ⟨fs, t, h⟩; cases h⟩
+  | .strct fs tail, b, h, hok, hrt => by
+    simp only [WFD] at h
+    obtain ⟨fb, rfl, hfb⟩ := h
+    simp only [descOkJ] at hok
+    simp only [floatsOf] at hrt
+    obtain ⟨js, he, hf⟩ := json_fields_roundtrip ftok fparse fs fb (zeros tail) .nil hfb hok hrt (by simp [KVs.keys])
+    simp only [KVs.append] at hf
+    exact ⟨.obj js, by simp only [toDict, toJ, he, Option.map_some], by simp only [ofJ, fromDict, hf], fun _ => ⟨js, rfl⟩⟩
+  | .sarr n e, b, h, hok, hrt => by
+    simp only [WFD] at h
+    simp only [descOkJ, Bool.and_eq_true, decide_eq_true_eq] at hok
+    obtain ⟨⟨hn, hst⟩, hoke⟩ := hok
+    simp only [floatsOf, List.mem_flatMap] at hrt
+    have hes : ∃ fs t, e = .strct fs t := by
+      cases e with
+      | strct fs t => exact ⟨fs, t, rfl⟩
+      | leaf _ => simp at hst
+      | sarr _ _ => simp at hst
+    obtain ⟨js, he, hall⟩ := toJL_chunks ftok (fun c => toDict e c)
+      (fun c j => fromDict e (ofJ fparse j) = (c, none) ∧ ∃ kvs, j = .obj kvs) (chunks e.size n b) (by
+        intro c hc
+        obtain ⟨j, hj, hf, ho⟩ := json_dict_roundtrip ftok fparse e c (h.2 c hc) hoke (fun x hx => hrt x ⟨c, hc, hx⟩)
+        exact ⟨j, hj, hf, ho hes⟩)
+    have hel := fromElems_forall₂ fparse (fun v => fromDict e v) e.size (chunks e.size n b) js
+      (hall.imp fun _ _ hp => hp.1)
+    rw [chunks_length, chunks_flatten e.size n b h.1] at hel
+    -- the decoded list is recognised as a list of struct dictionaries: its first element is one
+    have hobj : (JL.ofList js).hasObj = true := by
+      match hc : chunks e.size n b, js, hall with
+      | [], _, _ =>
+        have := chunks_length e.size n b; rw [hc] at this; simp at this; omega
+      | c :: cs, j :: js', hall =>
+        cases hall with
+        | cons h1 _ => obtain ⟨kvs, rfl⟩ := h1.2; simp [JL.ofList, JL.hasObj]
+    exact ⟨.arr (JL.ofList js), by simp only [toDict, toJ, he, Option.map_some],
+      by simp only [ofJ, hobj, if_true, fromDict, hel], by rintro ⟨fs, t, h⟩; cases h⟩
+theorem json_fields_roundtrip (ftok : Nat → List Char) (fparse : List Char → Nat) :
+    ∀ (fs : Fields) (b rest : Bytes) (pre : KVs), WFF fs b → fieldsOkJ fs = true →
+    (∀ x ∈ floatsOfFields fs (b ++ rest), fparse (ftok x) = x) → (∀ nm ∈ fs.names, nm ∉ pre.keys) →
+    ∃ js, toJO ftok (toDictFields fs (b ++ rest)) = some js ∧
+      fromDictFields fs (pre.append (ofJO fparse js)) = (b, none)
+  | .nil, b, rest, pre, h, _, _, _ => by
+    simp only [WFF] at h
+    exact ⟨.nil, rfl, by simp [fromDictFields, h]⟩
+  | .cons name pad d r, b, rest, pre, h, hok, hrt, hn => by
+    simp only [WFF] at h
+    obtain ⟨db, rb, rfl, hl, hd, hr, hnr⟩ := h
+    simp only [fieldsOkJ, Bool.and_eq_true] at hok
+    have hz : (zeros pad).length = pad := zeros_length pad
+    have e1 : ((zeros pad ++ db ++ rb ++ rest).drop pad).take d.size = db := by
+      rw [List.append_assoc, List.append_assoc, List.drop_left' hz, List.take_left' hl]
+    have e2 : (zeros pad ++ db ++ rb ++ rest).drop (pad + d.size) = rb ++ rest := by
+      rw [List.append_assoc]
+      exact List.drop_left' (by simp [hz, hl])
+    simp only [floatsOfFields, e1, e2, List.mem_append] at hrt
+    obtain ⟨j, hj, hf, _⟩ := json_dict_roundtrip ftok fparse d db hd hok.1 (fun x hx => hrt x (Or.inl hx))
+    have hname : name ∉ pre.keys := hn name (by simp [Fields.names])
+    have hn' : ∀ nm ∈ r.names, nm ∉ (pre.append (.cons name (ofJ fparse j) .nil)).keys := by
+      intro nm hnm
+      rw [keys_append_one]
+      simp only [List.mem_append, List.mem_singleton, not_or]
+      exact ⟨hn nm (by simp [Fields.names, hnm]), fun e => hnr (e ▸ hnm)⟩
+    obtain ⟨js, hjs, hfs⟩ := json_fields_roundtrip ftok fparse r rb rest _ hr hok.2 (fun x hx => hrt x (Or.inr hx)) hn'
+    refine ⟨.cons (keyOf name) j js, by simp only [toDictFields, e1, e2, toJO, hj, hjs], ?_⟩
+    simp only [ofJO, strOfKey_keyOf, fromDictFields, lookup_append name _ _ pre hname, hf]
+    rw [append_assoc_one, hfs]
+end
+
+/-- **message → JSON text → message**: for every class (shapes of `descOkJ`) and every well-formed content, the text
+`to_json` writes — minified or indented — is read by `json.loads` and decoded by `from_dict` to an object with exactly
+the original bytes.  Hypotheses about the opaque float formatter / reader pair: `ftok` yields float tokens, and
+`fparse (ftok x) = x` for the floats of this message. -/
+theorem message_json_roundtrip (ftok : Nat → List Char) (fparse : List Char → Nat)
+    (hf : ∀ x, floatTokOk (ftok x) = true) (d : Desc) (b : Bytes) (h : WFD d b) (hok : descOkJ d = true)
+    (hrt : ∀ x ∈ floatsOf d b, fparse (ftok x) = x) :
+    ∃ j, toJ ftok (toDict d b) = some j ∧
+      fromJson fparse d (renderMin j) = some (b, none) ∧ fromJson fparse d (renderPretty j) = some (b, none) := by
+  obtain ⟨j, he, hfd, _⟩ := json_dict_roundtrip ftok fparse d b h hok hrt
+  obtain ⟨j', he', hok'⟩ := toJ_ok ftok hf d b h
+  have : j' = j := by rw [he] at he'; exact (Option.some.inj he').symm
+  subst this
+  exact ⟨j', he, by simp only [fromJson, json_text_roundtrip_min j' hok', Option.map_some, hfd],
+    by simp only [fromJson, json_text_roundtrip_pretty j' hok', Option.map_some, hfd]⟩
+
 /-! ### copies share no storage -/
 
 theorem slice_self (b : Bytes) (off n : Nat) : slice (slice b off n) 0 n = slice b off n := by
@@ -850,5 +1147,17 @@ example : exSt.copyAs 3 5 exObj.ref = none := by decide
 example : ({ heap := [[1, 2], [5, 6, 7]] } : St).msgCopy { cls := 1, ref := ⟨0, 0, 2⟩ } { cls := 2, ref := ⟨1, 0, 3⟩ } =
     some ({ heap := [[1, 2], [5, 6, 7], [1, 2], [5, 6, 7]] }, { cls := 1, ref := ⟨2, 0, 2⟩ }, { cls := 2, ref := ⟨3, 0, 3⟩ }) := by
   decide
+
+/-! #### JSON and back -/
+/-- the message of `exDesc` through `to_json(minify=True)` and `from_json` -/
+example : fromJson (fun _ => 0) exDesc "{\"a\":513,\"s\":[{\"x\":5,\"t\":\"h\"},{\"x\":6,\"t\":\"hi\"}]}".toList =
+    some (exBytes, none) := by decide +kernel
+example : floatsOf exDesc exBytes = [] ∧ descOkJ exDesc = true := by decide +kernel
+/-- a byte array arrives as a list of ints -/
+example : fromJson (fun _ => 0) (.strct (.cons "b" 0 (.leaf (.arr .byteArray .byte 3)) .nil) 0) "{\"b\": [255, 0, 7]}".toList =
+    some ([255, 0, 7], none) := by decide +kernel
+/-- a missing key and malformed text are refused -/
+example : (fromJson (fun _ => 0) exDesc "{\"a\":513}".toList).map (·.2) = some (some .key) := by decide +kernel
+example : fromJson (fun _ => 0) exDesc "{\"a\":513,}".toList = none := by decide +kernel
 
 end Pyrtma.C10
